@@ -10,6 +10,7 @@ VX1: the self-delimiting text encoding shared by the Go harness (printer only) a
   trie    Y pe* | (pe trie)* ;            (structure dump: members, then children)
 -/
 import SMD.Model.SetTrie
+import SMD.Model.Schema
 namespace SMD
 namespace Wire
 
@@ -205,3 +206,96 @@ def pBoolWord : P Bool := fun cs =>
 
 end Wire
 end SMD
+
+/-! ### schemas
+
+  schema   X typedef* ;
+  typedef  t <S name> atom
+  atom     A (_ | s<S>) (_ | l typeref <S rel> [ <S key>* ]) (_ | m [ field* ] typeref <S rel>)
+  field    ( <S name> typeref (_ | value) )
+  typeref  R (_ | n<S>) atom (_ | e<S>)
+-/
+namespace SMD.Wire
+open SMD
+
+mutual
+partial def pAtom : P Atom
+  | 'A' :: cs =>
+    let scalarP : P (Option String) := fun cs =>
+      match cs with
+      | '_' :: r => some (none, r)
+      | 's' :: r => (pStr r).map fun (s, r') => (some s, r')
+      | _ => none
+    match scalarP cs with
+    | none => none
+    | some (sc, r1) =>
+      let listP : P (Option ListT) := fun cs =>
+        match cs with
+        | '_' :: r => some (none, r)
+        | 'l' :: r =>
+          match pTypeRef r with
+          | some (e, r2) =>
+            match pStr r2 with
+            | some (rel, '[' :: r3) =>
+              (pMany pStr ']' r3 []).map fun (keys, r4) => (some (ListT.mk e rel keys), r4)
+            | _ => none
+          | none => none
+        | _ => none
+      match listP r1 with
+      | none => none
+      | some (l, r2) =>
+        let mapP : P (Option MapT) := fun cs =>
+          match cs with
+          | '_' :: r => some (none, r)
+          | 'm' :: '[' :: r =>
+            match pMany pField ']' r [] with
+            | some (fields, r3) =>
+              match pTypeRef r3 with
+              | some (e, r4) => (pStr r4).map fun (rel, r5) => (some (MapT.mk fields [] e rel), r5)
+              | none => none
+            | none => none
+          | _ => none
+        (mapP r2).map fun (m, r3) => (Atom.mk sc l m, r3)
+  | _ => none
+partial def pField : P StructField
+  | '(' :: cs =>
+    match pStr cs with
+    | some (name, r1) =>
+      match pTypeRef r1 with
+      | some (t, '_' :: ')' :: r2) => some (StructField.mk name t none, r2)
+      | some (t, r2) =>
+        match pValue r2 with
+        | some (d, ')' :: r3) => some (StructField.mk name t (some d), r3)
+        | _ => none
+      | none => none
+    | none => none
+  | _ => none
+partial def pTypeRef : P TypeRef
+  | 'R' :: cs =>
+    let namedP : P (Option String) := fun cs =>
+      match cs with
+      | '_' :: r => some (none, r)
+      | 'n' :: r => (pStr r).map fun (s, r') => (some s, r')
+      | _ => none
+    match namedP cs with
+    | some (n, r1) =>
+      match pAtom r1 with
+      | some (a, '_' :: r2) => some (TypeRef.mk n a none, r2)
+      | some (a, 'e' :: r2) => (pStr r2).map fun (rel, r3) => (TypeRef.mk n a (some rel), r3)
+      | _ => none
+    | none => none
+  | _ => none
+end
+
+def pTypeDef : P TypeDef
+  | 't' :: cs =>
+    match pStr cs with
+    | some (name, r) => (pAtom r).map fun (a, r') => (⟨name, a⟩, r')
+    | none => none
+  | _ => none
+
+def pSchema : P Schema
+  | 'X' :: cs => (pMany pTypeDef ';' cs []).map fun (ts, r) => (⟨ts⟩, r)
+  | _ => none
+
+end SMD.Wire
